@@ -50,6 +50,10 @@ def gen_case(rng):
       "T": int(rng.integers(4, 11)),
       "hseed": int(rng.integers(0, 2 ** 31)),
   }
+  if rng.random() < 0.05:
+    # bfloat16 parameters and gradients, long history: the accumulators must still cover the exact second moment of the
+    # (bfloat16-valued) gradients to a few bfloat16 roundings of one term (2^-5 relative); only the accumulator clauses are checked
+    c.update(bf16=True, T=600, family=str(rng.choice(["gauss", "pm1"])), normalize=False)
   return c
 
 
@@ -61,6 +65,8 @@ def gen_history(c):
     fam = c["family"]
     if fam == "gauss":
       g = rng.standard_normal(shape)
+    elif fam == "pm1":
+      g = rng.choice([1.0, -1.0, 0.5, -0.5], size=shape)
     elif fam == "scales":
       g = rng.standard_normal(shape) * 10.0 ** rng.uniform(-4, 4)
     elif fam == "sparse":
@@ -85,11 +91,18 @@ def check_case(c, rec):
   hist, p0 = (c["grads"], c["param"]) if "grads" in c else gen_history(c)
   hist = [np.asarray(g, np.float32) for g in hist]
   p0 = np.asarray(p0, np.float32)
+  bf16 = bool(c.get("bf16"))
+  dt = jnp.bfloat16 if bf16 else jnp.float32
+  if bf16:
+    # the reference sees exactly the bfloat16 values the optimizer receives
+    hist = [np.asarray(jnp.asarray(g, jnp.bfloat16).astype(jnp.float32)) for g in hist]
+    p0 = np.asarray(jnp.asarray(p0, jnp.bfloat16).astype(jnp.float32))
+    rec.count("bfloat16_cases")
   shape = tuple(c["shape"])
   b1, b2, wd, lr, eps = c["beta1"], c["beta2"], c["weight_decay"], c["lr"], c["eps"]
   opt = sm3.sm3(lr, beta1=b1, beta2=b2, diagonal_epsilon=eps, weight_decay=wd,
                 normalize_grads=c["normalize"])
-  params = {"w": jnp.asarray(p0)}
+  params = {"w": jnp.asarray(p0, dt)}
   st = opt.init(params)
   upd = jax.jit(opt.update)
   nu = np.zeros(shape)
@@ -101,16 +114,16 @@ def check_case(c, rec):
            sample={k: c[k] for k in c if k not in ("grads", "param")})
   rec.count("family_" + c["family"])
   rec.count("rank_%d" % len(shape))
-  prev_acc = [np.asarray(a, np.float64) for a in st.stats["w"].diagonal_statistics]
+  prev_acc = [np.asarray(a.astype(jnp.float32), np.float64) for a in st.stats["w"].diagonal_statistics]
   for t, g in enumerate(hist):
-    m_pre = np.asarray(st.stats["w"].diagonal_momentum.to_float(), np.float64)
-    u, st = upd({"w": jnp.asarray(g)}, st, params)
-    u = np.asarray(u["w"], np.float64)
+    m_pre = np.asarray(st.stats["w"].diagonal_momentum.to_float().astype(jnp.float32), np.float64)
+    u, st = upd({"w": jnp.asarray(g, dt)}, st, params)
+    u = np.asarray(u["w"].astype(jnp.float32), np.float64)
     g64 = g.astype(np.float64)
     if c["normalize"]:
       g64 = g64 / (np.linalg.norm(g64) + 1e-16)
     nu = b2 * nu + w2 * g64 ** 2
-    accs = [np.asarray(a, np.float64) for a in st.stats["w"].diagonal_statistics]
+    accs = [np.asarray(a.astype(jnp.float32), np.float64) for a in st.stats["w"].diagonal_statistics]
     if len(accs) != len(shape) or any(a.shape != (shape[i],) for i, a in enumerate(accs)):
       rec.violation("accumulator-layout", "accumulator shapes %s for tensor %s" % ([a.shape for a in accs], shape), wit)
       return
@@ -124,7 +137,7 @@ def check_case(c, rec):
       e = a.reshape(sh) * np.ones(shape)
       mn = e if mn is None else np.minimum(mn, e)
     rec.count("cover_checked", int(nu.size))
-    slack = nu * 1e-5 + 1e-37
+    slack = nu * (2.0 ** -5 if bf16 else 1e-5) + 1e-37   # bfloat16: w2, g*g and their product are each rounded to 8 bits
     if np.any(mn < nu - slack):
       i = np.unravel_index(np.argmax(nu - mn), shape)
       rec.violation("cover", "step %d coord %s: min accumulator %.6g < exact second moment %.6g" % (
@@ -139,6 +152,8 @@ def check_case(c, rec):
           rec.violation("monotone", "accumulator decreased at step %d with beta2=1" % t, wit)
           return
     prev_acc = accs
+    if bf16:
+      continue
     # recover pre-momentum preconditioned gradient
     pg = (-u / lr - wd * p0.astype(np.float64) - b1 * m_pre) / wm
     ada = np.abs(g64) / np.sqrt(nu + eps)
